@@ -1007,6 +1007,22 @@ func (e *CEnv) evalIdent(name string) (Value, types.Type) {
 		}
 	}
 	if e.pkg != nil {
+		// an import alias used by the package's own files wins over the imported package's name
+		if pp := e.p.eng.pkgs[e.pkg.Path()]; pp != nil {
+			for _, f := range pp.Syntax {
+				for _, is := range f.Imports {
+					if is.Name == nil || is.Name.Name != name {
+						continue
+					}
+					path := strings.Trim(is.Path.Value, "\"")
+					for _, imp := range e.pkg.Imports() {
+						if imp.Path() == path {
+							return pkgV{imp}, nil
+						}
+					}
+				}
+			}
+		}
 		for _, imp := range e.pkg.Imports() {
 			if imp.Name() == name {
 				return pkgV{imp}, nil
@@ -1487,6 +1503,23 @@ func (e *CEnv) evalCall(n *ast.CallExpr) (Value, types.Type) {
 				e.fail("fresh of %T", v)
 			}
 			return Scalar{BVUge(r, e.old.HeapTop)}, boolT
+		case "allocated":
+			// allocated(p): the pointer / slice / map refers to an object that exists in this state
+			// (every reference stored in a well-typed heap does; stated explicitly where a quantified
+			// invariant needs it to separate old objects from ones allocated later)
+			v, _ := e.eval(n.Args[0])
+			var r *Term
+			switch x := v.(type) {
+			case PtrV:
+				r = x.Ref
+			case SliceV:
+				r = x.Ref
+			case MapV:
+				r = x.Ref
+			default:
+				e.fail("allocated of %T", v)
+			}
+			return Scalar{BVUlt(r, e.st.HeapTop)}, boolT
 		}
 	}
 	fv, ft := e.eval(n.Fun)
